@@ -102,6 +102,24 @@ class Gen:
             return f"#ifndef {n}"
         return f"#if {gen_cond(r, self.names)}"
 
+    def indirection_drill(self):
+        """a macro whose replacement names another macro is used, the inner macro is redefined, the outer one is used
+        again: every use sees the inner definition in force at that point (C 6.10.3.4 rescanning; nothing is frozen
+        at definition time or at first use)"""
+        r = self.rng
+        i = r.randrange(len(self.names) - 1)
+        outer, inner = self.names[i], r.choice(self.names[i + 1:])
+        v1, v2 = r.sample([0, 1, 2, 7], 2)
+        out = [f"#undef {outer}", f"#define {outer} {r.choice([inner, '(' + inner + ')', inner + ' + 0'])}",
+               f"#undef {inner}", f"#define {inner} {v1}"]
+        out += [f"#if {outer} == {v1}", self.code(), "#else", self.code(), "#endif"]
+        if r.random() < 0.5:
+            out.append(self.code())
+        out += [f"#undef {inner}"] + ([f"#define {inner} {v2}"] if r.random() < 0.8 else [])
+        out += [r.choice([f"#if {outer} == {v2}", f"#if {outer} != {v1}", f"#if {outer} > {min(v1, v2)}"]), self.code(), "#else", self.code(), "#endif"]
+        self.budget -= len(out) // 2
+        return [self.dirline(l) if l.startswith("#") else l for l in out]
+
     def block(self, depth):
         r = self.rng
         out = []
@@ -109,7 +127,9 @@ class Gen:
             if self.budget <= 0:
                 break
             x = r.random()
-            if x < 0.34:
+            if x < 0.05 and len(self.names) >= 2:
+                out += self.indirection_drill()
+            elif x < 0.34:
                 out.append(self.code())
             elif x < 0.52:
                 for l in gen_define(r, self.names, self.safe):
@@ -472,6 +492,41 @@ def stream_random(ctx, drv, impl, root, n, gcc_every, deadline):
         text = "\n".join(lines) + ("\n" if ctx.rng.random() < 0.9 else "")
         plats = gen_platforms(ctx.rng, names)
         report(ctx, drv, impl, root, evaluate(ctx, drv, impl, root, text, plats, "random", use_gcc=(gcc_every and i % gcc_every == 0)))
+        if i % 4 == 1 and len(ctx.violations) < 5:
+            multi_command(ctx, drv, impl, root, text, plats)
+
+
+def multi_command(ctx, drv, impl, root, text, plats):
+    """one platform built by several commands (-D sets) for the same unit: a line is used by the platform iff some
+    command's preprocessor run keeps it (the reference machine per command, OR-ed)"""
+    if drv is None or len(plats) < 2:
+        return
+    dsets = list(plats.values())
+    replies = drv.batch([{"op": "c01", "text": text, "defs": d} for d in dsets])
+    if not all(rep["spec"].get("wf") for rep in replies):
+        return
+    want = [[k, ls, any(rep["spec"]["rows"][i][2] for rep in replies)] for i, (k, ls, _) in enumerate(replies[0]["spec"]["rows"])]
+    impl.n += 1
+    path = os.path.join(str(root), f"mc{impl.n}.c")
+    with open(path, "w", newline="") as f:
+        f.write(text)
+    case = {"text": text, "platforms": {"P": dsets}, "origin": "multi-command", "multi_command": True}
+    try:
+        cfg = {"P": [{"file": path, "defines": list(d), "include_paths": [], "include_files": []} for d in dsets],
+               "Q": [{"file": path, "defines": list(dsets[0]), "include_paths": [], "include_files": []}]}
+        st = impl.finder.find(str(root), impl.CodeBase(str(root)), cfg, summarize_only=False)
+        tree, m = st.get_tree(path), st.get_map(path)
+        got = [[KIND.get(type(n).__name__, type(n).__name__), list(n.lines), "P" in m[n]] for n in tree.walk() if isinstance(n, impl.pp.CodeNode)]
+    except Exception as e:  # noqa
+        ctx.violation(f"analysis of a platform with {len(dsets)} commands for one unit fails with {type(e).__name__} although every command is accepted alone", case)
+        return
+    finally:
+        os.remove(path)
+    ctx.count(key="multi-command")
+    if got != want:
+        diff = [(a, b) for a, b in zip(got, want) if a != b][:3]
+        ctx.violation(f"platform built by the commands {dsets}: attribution differs from the union of the per-command preprocessor runs: "
+                      f"(implementation, reference) = {json.dumps(diff)}", case)
 
 
 def stream_malformed(ctx, drv, impl, root, n, deadline):
@@ -545,6 +600,11 @@ def search(ctx, drv):
 def replay(ctx, drv, case):
     impl = Impl()
     out = {}
+    if case.get("multi_command"):
+        c2 = core.Ctx(ctx.prop, "quick", 0)
+        with core.Scratch() as root:
+            multi_command(c2, drv, impl, root, case["text"], {f"c{i}": d for i, d in enumerate(case["platforms"]["P"])})
+        return {"text": case["text"].split("\n"), "commands": case["platforms"]["P"], "violations": [w for w, _ in c2.violations]}
     with core.Scratch() as root:
         for p, defs in case["platforms"].items():
             def compact(x):
